@@ -10,6 +10,7 @@ import (
 	"maps"
 	"math"
 	"slices"
+	"strconv"
 	"strings"
 
 	"github.com/mazrean/kessoku/internal/pkg/collection"
@@ -163,9 +164,19 @@ func createASTTypeExpr(pkg string, t types.Type, varPool *VarPool, imports map[s
 	case *types.Signature:
 		funcFields := make([]*ast.Field, 0, typ.Params().Len())
 		for i := 0; i < typ.Params().Len(); i++ {
-			expr, err := createASTTypeExpr(pkg, typ.Params().At(i).Type(), varPool, imports)
+			paramType := typ.Params().At(i).Type()
+			variadicSlice, isVariadic := paramType.(*types.Slice)
+			isVariadic = isVariadic && typ.Variadic() && i == typ.Params().Len()-1
+			if isVariadic {
+				// func(args ...T) is a different type than func(args []T)
+				paramType = variadicSlice.Elem()
+			}
+			expr, err := createASTTypeExpr(pkg, paramType, varPool, imports)
 			if err != nil {
 				return nil, fmt.Errorf("param %d: %w", i, err)
+			}
+			if isVariadic {
+				expr = &ast.Ellipsis{Elt: expr}
 			}
 			funcFields = append(funcFields, &ast.Field{
 				Names: []*ast.Ident{ast.NewIdent(fmt.Sprintf("arg%d", i))},
@@ -198,10 +209,19 @@ func createASTTypeExpr(pkg string, t types.Type, varPool *VarPool, imports map[s
 			if err != nil {
 				return nil, fmt.Errorf("field %d: %w", i, err)
 			}
-			fields = append(fields, &ast.Field{
+			field := &ast.Field{
 				Names: []*ast.Ident{ast.NewIdent(typ.Field(i).Name())},
 				Type:  expr,
-			})
+			}
+			if typ.Field(i).Embedded() {
+				// struct{ sync.Mutex } is a different type than struct{ Mutex sync.Mutex }
+				field.Names = nil
+			}
+			if tag := typ.Tag(i); tag != "" {
+				// field tags are part of a struct type's identity
+				field.Tag = &ast.BasicLit{Kind: token.STRING, Value: strconv.Quote(tag)}
+			}
+			fields = append(fields, field)
 		}
 		return &ast.StructType{
 			Fields: &ast.FieldList{
